@@ -218,6 +218,28 @@ def _max_plane_dist(X, lig):
     return m
 
 
+def apex_distances(X, quad):
+    """distance of each of four points from the plane of the other three"""
+    out = []
+    for apex in quad:
+        base = [q for q in quad if q != apex]
+        nrm = np.cross(X[base[0]] - X[base[1]], X[base[2]] - X[base[1]])
+        ln = np.linalg.norm(nrm)
+        out.append(abs(np.dot(nrm / ln, X[apex] - X[base[1]])) if ln > 1e-9 else 0.0)
+    return out
+
+
+def straddles(X, pts, thr=1.0):
+    """True when some four of the points are 'planar' seen from one apex and 'not planar' seen from another (the
+    distance of one point from the plane of the other three is below thr, that of another point above). The library's
+    are_planar() evaluates a single apex per quadruple - the last one in input order."""
+    for quad in itertools.combinations(pts, 4):
+        d = apex_distances(X, quad)
+        if min(d) < thr < max(d):
+            return True
+    return False
+
+
 def _angle(a, b, c):
     u, v = a - b, c - b
     cs = np.dot(u, v) / (np.linalg.norm(u) * np.linalg.norm(v))
